@@ -179,6 +179,9 @@ func (st *store) exec(line string) (out string) {
 	if ws[0] == "bigstream" {
 		return runBigStream(line)
 	}
+	if ws[0] == "chain" {
+		return runAliasChain(line)
+	}
 	iter := func(n string) *simdjson.Iter {
 		i, ok := st.iters[n]
 		if !ok {
